@@ -890,6 +890,19 @@ def intFinish (P : Prims) (f : Flags) (c : Nat) (d : V) : Outcome V :=
   | .diverge => .diverge
   | .unmodelled w => .unmodelled w
 
+/-- `t(data)` for `data` already an instance of the int class `t` (with fix C12-int-from-sequence-keeps-bool: the
+unwrapped value is re-wrapped, so a bool taken out of a one-item sequence becomes 1 / 0 as a bare bool does;
+before the fix `data` itself was returned: `[True]` → `True`) -/
+def intOfInst (c : Nat) (d : V) : V :=
+  match d with
+  | .bool b => .int c (if b then 1 else 0)
+  | .int _ i => .int c i
+  | _ => d
+
+/-- re-wrapping an instance of `int` gives an instance of `int` (used by C01's `intAfter_inst`) -/
+theorem intOfInst_inst (d : V) (h : isInstT d (.cls .int 0) = true) : isInstT (intOfInst 0 d) (.cls .int 0) = true := by
+  cases d <;> first | rfl | exact h
+
 open Utv.Gen.Tables in
 /-- `to_integer` after `_attempt_from_number` (:428-434): the word tables (plain `0` / `1`, whatever `t` is),
 the `isinstance(data, t)` shortcut -/
@@ -899,7 +912,7 @@ def intAfter (P : Prims) (f : Flags) (c : Nat) (d : V) : Outcome V :=
     if FALSE_VALUES.contains (pyLower s) then .ok (.int 0 0)
     else if TRUE_VALUES.contains (pyLower s) then .ok (.int 0 1)
     else intFinish P f c d
-  | _ => if isInstT d (.cls .int c) then .ok d else intFinish P f c d
+  | _ => if isInstT d (.cls .int c) then .ok (intOfInst c d) else intFinish P f c d
 
 /-- `to_integer` :414-449 -/
 def toInteger (P : Prims) (E : Env) (f : Flags) (c : Nat) (v : V) : Outcome V :=
